@@ -96,6 +96,32 @@ def build_ir(extra_tus=()):
     log('[ir] built %s in %.1fs' % (out, time.time() - t0))
     return out
 
+import threading
+_plock = threading.Lock()
+def probes(exprs, headers=('internal.h',)):
+    """evaluate constant expressions (offsetof, sizeof, macros) with the real headers and flags: {name: expr} -> {name: int}"""
+    with _plock: return _probes(exprs, headers)
+def _probes(exprs, headers):
+    key = hashlib.sha256(repr(sorted(exprs.items())).encode()).hexdigest()[:12]
+    d = cache_dir(); out = os.path.join(d, 'probe_%s.json' % key)
+    if os.path.exists(out): return json.load(open(out))
+    src = os.path.join(d, 'probe_%s_%d_%d.c' % (key, os.getpid(), threading.get_ident()))
+    with open(src, 'w') as f:
+        for h in headers: f.write('#include "%s"\n' % h)
+        for n, e in exprs.items(): f.write('const unsigned long long VP_%s = (unsigned long long)(%s);\n' % (n, e))
+    ll = src + '.ll'
+    r = subprocess.run(['clang-14', '-std=gnu11', '-O0', '-fblocks', '-w'] + DEFS + includes() + ['-S', '-emit-llvm', src, '-o', ll], stdout=subprocess.PIPE, stderr=subprocess.STDOUT, text=True)
+    if r.returncode != 0: raise RuntimeError('probe TU does not compile: ' + r.stdout[:600])
+    vals = {}
+    for ln in open(ll):
+        m = re.match(r'@VP_(\w+) = .*constant i64 (-?\d+)', ln)
+        if m: vals[m.group(1)] = int(m.group(2)) & ((1 << 64) - 1)
+    os.unlink(src); os.unlink(ll)
+    missing = set(exprs) - set(vals)
+    if missing: raise RuntimeError('probe: not constant-folded: %s' % missing)
+    json.dump(vals, open(out + '.tmp%d' % os.getpid(), 'w')); os.replace(out + '.tmp%d' % os.getpid(), out)
+    return vals
+
 _mods = {}
 def load_module(ll):
     if ll in _mods: return _mods[ll]
@@ -135,7 +161,7 @@ class H:
     """one harness: which real functions go under the solver, which are environment stubs, and how cbmc is run"""
     def __init__(s, name, file, entries, stubs=(), noglobal=(), icall_only=(), blocking=(), visible=(), seq=False, nt=2, heap=1024, pagewords=32,
                  defines=(), cbmc=(), mode='all', witness='inline', tiers=('quick', 'thorough'), timeout=600, symbolic=True, note='', nsw=False,
-                 unwind=None, unwindset=None, mem_gb=24, extra_tus=(), backend=None, flat=True, expect_fail=(), stack_extra=0, weak_cas=False, prune_init=True):
+                 unwind=None, unwindset=None, mem_gb=24, extra_tus=(), backend=None, flat=True, expect_fail=(), stack_extra=0, weak_cas=False, prune_init=True, probes=None):
         s.__dict__.update(locals()); del s.__dict__['s']
 
 def translate(h, wd):
@@ -284,13 +310,17 @@ def run_harness(h, tier, outdir):
     res = dict(name=h.name, file=h.file, note=h.note, status='ok', failures=[], witness_ok=None, queries=0, symbolic=h.symbolic)
     t0 = time.time()
     try:
+        if h.probes:
+            pv = probes(h.probes)
+            with open(os.path.join(wd, 'probe.h'), 'w') as f:
+                for n, v in sorted(pv.items()): f.write('#define P_%s %dull\n' % (n, v))
         if h.flat:
             funcs, ext = translate(h, wd); res['functions_encoded'] = funcs; res['environment_stubs'] = ext
         else:
             res['functions_encoded'] = list(h.entries); res['environment_stubs'] = list(h.stubs)
     except Exception as ex:
         import traceback
-        res['status'] = 'broken'; res['error'] = 'translation failed: %s' % ex; res['trace'] = traceback.format_exc()[-2000:]; return res
+        res['status'] = 'broken'; res['error'] = 'translation failed: %s' % str(ex)[:700]; res['trace'] = traceback.format_exc()[-2000:]; return res
     res['translate_s'] = round(time.time() - t0, 2)
     runs = [('main', h.witness == 'inline')]
     if h.witness == 'twin': runs.append(('witness', True))
